@@ -10,10 +10,10 @@ PLANS = {
                 thorough=[("rand", 6000, ""), ("rand", 1500, "maxops=40"), ("burst", 200, "ks=2+3+17+240+2049+5000"), ("withops", 1500, ""), ("moves", 800, ""), ("overflow", 1, "extra=4000"),
                           ("lag", 3000, ""), ("cwd", 400, ""), ("endwatch", 1500, "")]),
     "C02": dict(engine=INO, mc=["MC_Events"],
-                quick=[("rand", 300, ""), ("lag", 120, ""), ("wsrand", 100, ""), ("withops", 40, ""), ("repoint", 60, ""), ("endwatch", 80, "")],
-                thorough=[("rand", 5000, ""), ("lag", 2000, ""), ("wsrand", 2000, ""), ("withops", 800, ""), ("repoint", 800, ""), ("endwatch", 1500, "")]),
+                quick=[("rand", 300, ""), ("lag", 120, ""), ("wsrand", 100, ""), ("withops", 40, ""), ("repoint", 60, ""), ("endwatch", 80, ""), ("recurse", 100, "")],
+                thorough=[("rand", 5000, ""), ("lag", 2000, ""), ("wsrand", 2000, ""), ("withops", 800, ""), ("repoint", 800, ""), ("endwatch", 1500, ""), ("recurse", 2000, "")]),
     "C03": dict(engine=INO, mc=["MC_Events"],
-                quick=[("rand", 300, ""), ("burst", 20, "ks=2+3+17+240+700"), ("paced", 40, ""), ("absorb", 24, ""), ("moves", 60, "")],
+                quick=[("rand", 300, ""), ("burst", 20, "ks=2+3+17+240+700"), ("paced", 40, ""), ("absorb", 24, ""), ("moves", 60, ""), ("lag", 100, ""), ("endwatch", 60, "")],
                 thorough=[("rand", 5000, ""), ("burst", 200, "ks=2+3+17+240+2049+5000"), ("paced", 600, ""), ("absorb", 200, ""), ("moves", 1500, "")]),
     "C04": dict(engine=INO, mc=["MC_WatchSet"],
                 quick=[("wsexh", 196, "k=2"), ("wsexh", 900, "k=3"), ("wsrand", 200, ""), ("repoint", 60, ""), ("tlcws", 600, "k=3")],
